@@ -237,6 +237,63 @@ def run_shard(spec):
         counters["populated_paths_evaluable"] = counters.get("populated_paths_evaluable", 0) + sum(1 for x in ra if evaluable(x))
         if compare_family(paths, ra, rb) or compare_family(paths, ra, rc):
             break
+    # ---- keys / operands that are NOT hashable (lists, dicts, sets, arrays; a tuple holding one) ------------------
+    # Such a reference either cannot be built (TypeError: today's behaviour, nothing to compare) or, if an implementation
+    # builds it, two independently built references with equal but distinct key objects obey the same relation.
+    import copy as _copy
+    import numpy as _np
+    unh = [[0, 2], [1], [], {"a": 1}, {1, 2}, ("k", [0]), _np.array([0, 1])]
+    ma, mb = managers()
+    for key in unh:
+        for depth in (1, 2, 3):
+            for tail in ((), (("a", "q"),), (("i", 3),)):
+                pa = []
+                for roots in (ma, mb, ma):
+                    try:
+                        x = roots["r"]
+                        for _ in range(depth - 1):
+                            x = x["n"]
+                        x = x[_copy.deepcopy(key)]
+                        for kind, k2 in tail:
+                            x = x[k2] if kind == "i" else getattr(x, k2)
+                        pa.append(x)
+                    except TypeError:
+                        pa.append(None)
+                counters["unhashable_key_paths"] = counters.get("unhashable_key_paths", 0) + 1
+                if any(x is None for x in pa):
+                    if not all(x is None for x in pa):
+                        violations.append({"what": "C06 a reference with the unhashable key %r could be built %s times out of 3" % (key, sum(x is not None for x in pa))})
+                    counters["unhashable_key_paths_refused"] = counters.get("unhashable_key_paths_refused", 0) + 1
+                    continue
+                a, b, c = pa
+                try:
+                    ok = (a == b) is True and hash(a) == hash(b) and {a: 1}.get(b) == 1 and (a == c) is True and hash(a) == hash(c) and (c in {a})
+                except Exception as exc:
+                    ok = False
+                if not ok:
+                    violations.append({"what": "C06 references %s built independently over the same path with equal (distinct) unhashable key objects %r: "
+                                               "==%s, equal hashes %s, same dict entry %s" % (a, key, a == b, hash(a) == hash(b), {a: 1}.get(b) == 1)})
+                    break
+    # the same for expression operands and call arguments
+    for opnd in ([1, 2], {"a": 1}, _np.array([1.0, 2.0])):
+        built = []
+        for roots in (ma, mb):
+            try:
+                built.append((roots["r"]["v"] * _copy.deepcopy(opnd), roots["r"]["f"](roots["r"]["v"], _copy.deepcopy(opnd))))
+            except TypeError:
+                built.append(None)
+        counters["unhashable_operand_cases"] = counters.get("unhashable_operand_cases", 0) + 1
+        if built[0] is None or built[1] is None:
+            if (built[0] is None) != (built[1] is None):
+                violations.append({"what": "C06 an expression with the unhashable operand %r could be built in one manager only" % (opnd,)})
+            continue
+        for a, b in zip(*built):
+            try:
+                eq = bool(a == b)
+            except Exception:
+                eq = False
+            if eq and hash(a) != hash(b):
+                violations.append({"what": "C06 expressions %s of identical structure built twice (equal, distinct unhashable operand %r) are == but hash differently" % (a, opnd)})
     # ---- short-lived temporaries ----------------------------------------------------------------
     # A ref is built, used (printed, compared, hashed, looked up) and dropped; the next ref built -- which CPython
     # typically places at the address just freed -- denotes a DIFFERENT path whose hash collides with the dropped
